@@ -304,6 +304,16 @@ func (e *Enc) encodeInstr(b *ssa.BasicBlock, ins ssa.Instruction, st *State) {
 			}
 		}
 		e.store(l, st, e.term(ins.Val))
+		// a closure kept in a local variable (captured by another closure): calls through the variable resolve to it
+		if mc, ok := ins.Val.(*ssa.MakeClosure); ok {
+			if al, ok := ins.Addr.(*ssa.Alloc); ok {
+				if prev, had := e.cellClosure[al]; had && prev != mc {
+					e.cellClosure[al] = nil
+				} else if !had {
+					e.cellClosure[al] = mc
+				}
+			}
+		}
 	case *ssa.BinOp:
 		e.encBinOp(ins, st)
 	case *ssa.Phi:
@@ -463,6 +473,11 @@ func (e *Enc) encUnOp(ins *ssa.UnOp, st *State) {
 		e.checkProtected(l, st, false, ins.Pos())
 		v, _ := e.load(l, st)
 		e.setVal(ins, v)
+		if al, ok := ins.X.(*ssa.Alloc); ok {
+			if mc := e.cellClosure[al]; mc != nil {
+				e.closures[ins] = mc
+			}
+		}
 		e.assumeWFg(e.val[ins], ins.Type(), st, "true")
 		// remember where a loaded pointer came from (needed for sync.Cond receivers)
 	case token.NOT:
